@@ -51,6 +51,7 @@ Section Eval.
     | GNil => VNilV
     | GSel p => env p
     | GLit z => VInt z
+    | GStr _ => VBadV
     | GEmptyStruct ty => VEmptyOf ty
     | GNot a => match eval a with VBool b => VBool (negb b) | VPanicV => VPanicV | _ => VBadV end
     | GBin op a b =>
@@ -111,6 +112,7 @@ Section Eval.
         | RErr n => option_map VErr (err_of_name n)
         | RSameErr => match g_cond g with GFails c => match eval c with VCallRes r => Some r | _ => None end | _ => None end
         | RUnknown _ => None
+        | RExpr _ => None
         end
       | VBool false => run rest
       | VPanicV => Some VPanicked
